@@ -1,0 +1,12 @@
+//go:build verif
+
+package dtlcp
+
+// VerifSetWriteSeq sets the record sequence number the next record written in the current epoch will
+// carry (add-only verification hook: lets a harness reach large sequence numbers without writing
+// billions of records).
+func (c *Conn) VerifSetWriteSeq(s uint64) {
+	c.out.Lock()
+	c.writeSeq = uint48(s)
+	c.out.Unlock()
+}
